@@ -3784,6 +3784,8 @@ impl Zeroconf {
         // The socket is shared by all interfaces: select the outgoing interface first,
         // otherwise the packet leaves on whichever interface was used last.
         let pktinfo_sock = &sock.pktinfo;
+        #[cfg(feature = "verif-hooks")]
+        let pktinfo_sock = &crate::verif::SockShim(pktinfo_sock);
         let selected = match if_addr.ip() {
             IpAddr::V4(ipv4) => pktinfo_sock.set_multicast_if_v4(&ipv4),
             IpAddr::V6(_) => pktinfo_sock.set_multicast_if_v6(intf.index),
